@@ -93,6 +93,8 @@ func New[T any](
 		methodNotAllowed:   tree.methodNotAllowedBuilder(tree.node), // 请求 * 或是空路径时，其它请求方法需要 405
 	}
 
+	tree.buildMethods(0) // 生成根节点的 Allow 报头
+
 	if lock {
 		tree.locker = &sync.RWMutex{}
 	}
@@ -156,6 +158,10 @@ func (tree *Tree[T]) Clean(prefix string) {
 	}
 
 	tree.node.clean(prefix)
+
+	clear(tree.methods) // 重新统计剩余路由项的请求方法
+	tree.node.countMethods(tree.methods)
+	tree.buildMethods(0)
 }
 
 // Remove 移除路由项
@@ -172,7 +178,13 @@ func (tree *Tree[T]) Remove(pattern string, methods ...string) {
 		return
 	}
 
+	removed := make([]string, 0, len(child.handlers)) // 实际被删除的由用户注册的请求方法
 	if len(methods) == 0 {
+		for m := range child.handlers {
+			if !isAutoMethod(m) {
+				removed = append(removed, m)
+			}
+		}
 		child.handlers = nil
 	} else {
 		for _, m := range methods {
@@ -182,7 +194,10 @@ func (tree *Tree[T]) Remove(pattern string, methods ...string) {
 				delete(child.handlers, http.MethodHead)
 				fallthrough
 			default:
-				delete(child.handlers, m)
+				if _, found := child.handlers[m]; found {
+					removed = append(removed, m)
+					delete(child.handlers, m)
+				}
 			}
 		}
 
@@ -204,7 +219,7 @@ func (tree *Tree[T]) Remove(pattern string, methods ...string) {
 		child = child.parent
 	}
 
-	tree.buildMethods(-1, methods...)
+	tree.buildMethods(-1, removed...)
 }
 
 // 获取指定的节点，若节点不存在，则在该位置生成一个新节点。
@@ -322,4 +337,21 @@ func (tree *Tree[T]) ApplyMiddleware(ms ...types.Middleware[T]) {
 		tree.trace = ApplyMiddleware(tree.trace, http.MethodTrace, "", tree.Name(), ms...)
 	}
 	tree.node.applyMiddleware(ms...)
+}
+
+// 是否为自动生成的 OPTIONS、HEAD 或是 405
+func isAutoMethod(m string) bool {
+	return m == http.MethodOptions || m == http.MethodHead || m == methodNotAllowed
+}
+
+// 统计所有子节点中由用户注册的各个请求方法的数量
+func (n *node[T]) countMethods(cnt map[string]int) {
+	for _, c := range n.children {
+		for m := range c.handlers {
+			if !isAutoMethod(m) {
+				cnt[m]++
+			}
+		}
+		c.countMethods(cnt)
+	}
 }
